@@ -222,6 +222,7 @@ theorem findLoop_good (L : Lawful V) (f : Finder) (hm : Mem) (needle : Slice)
     have hdiv : (max + V.bytes - cur) / V.bytes = 0 := Nat.div_eq_of_lt hsmall
     have hmod : (max + V.bytes - cur) % V.bytes = max + V.bytes - cur := Nat.mod_eq_of_lt hsmall
     have hme := G.hme
+    have hmin2 := G.hmin2
     rcases findTail_good L f hm needle start end_ max cur c G hv hgood (by omega) h2 hno with
       ⟨⟨hD1, hD2⟩, hrun⟩ | ⟨hD, r, c', hrun, hfr, hc'⟩
     · right
